@@ -45,10 +45,19 @@ func payload(r *rng.R) string {
 
 func genAct(r *rng.R, allowAttr bool, panicPct int, hdrN *int) Act {
 	if r.Intn(100) < panicPct {
+		switch r.Intn(6) {
+		case 0:
+			return Act{K: "panic", B: AbortText} // the sentinel http.ErrAbortHandler, as a value
+		case 1:
+			return Act{K: "panic", B: "error: boom" + strconv.Itoa(r.Intn(100))} // an error value
+		}
 		return Act{K: "panic", B: "boom" + strconv.Itoa(r.Intn(100))}
 	}
 	switch k := r.Intn(10); {
 	case k < 5:
+		if r.Chance(1, 8) {
+			return Act{K: "ws", B: payload(r)}
+		}
 		return Act{K: "w", B: payload(r)}
 	case k < 6:
 		return Act{K: "wh", N: codes[r.Intn(len(codes))]}
@@ -132,6 +141,9 @@ func GenCfg(r *rng.R, o GenOpts) *Cfg {
 		for i := range cfg.CF {
 			cfg.CF[i].Kind = "pass"
 		}
+		if r.Chance(1, 2) {
+			cfg.CF[0].Kind = "middle" // the requests of a batch meet inside the adapted net/http middleware
+		}
 	}
 	for _, s := range cfg.Routing.Services {
 		cfg.SvcF[s.ID] = genFilters(r, 2, &id, &hdrN, o.PanicPct)
@@ -148,9 +160,17 @@ func GenCfg(r *rng.R, o GenOpts) *Cfg {
 				b := false
 				rx.Enc = &b
 			}
+			if r.Chance(1, 12) {
+				i := r.Intn(len(rx.Script) + 1)
+				rx.Script = append(rx.Script[:i:i], append([]Act{{K: "hj"}}, rx.Script[i:]...)...)
+			}
 			cfg.RouteX[rt.ID] = rx
 		}
 	}
+	if r.Chance(1, 12) {
+		cfg.Plain = append([]Act{{K: "hj"}}, cfg.Plain...)
+	}
+	cfg.Late = r.Chance(1, 4)
 	cfg.Provider = []string{"pool", "pool", "bounded0", "bounded1", "bounded2"}[r.Intn(5)]
 	cfg.CustomErr = r.Chance(4, 5)
 	return cfg
